@@ -306,6 +306,88 @@ def _resolve_floor(fv, why):
     return None
 
 
+def _conc(e, v, wide_ty):
+    """value of an integer expression tree at ('param', 1) = v; None when a node is not an
+    integer operation this evaluator knows (finite-domain decision: the narrow range has 256 or
+    65536 points)"""
+    k = e[0]
+    if k == "param":
+        return v
+    if k == "const":
+        return e[1] if isinstance(e[1], int) and not isinstance(e[1], bool) else None
+    if k == "ovf":
+        return _conc(e[1], v, wide_ty)
+    if k == "cast":
+        x = _conc(e[2], v, wide_ty)
+        if x is None or e[1] != "IntToInt" or e[3] not in TYMAX:
+            return None
+        lo, hi = TYMIN[e[3]], TYMAX[e[3]]
+        span = hi - lo + 1
+        return (x - lo) % span + lo
+    if k == "bin":
+        a, b = _conc(e[2], v, wide_ty), _conc(e[3], v, wide_ty)
+        if a is None or b is None:
+            return None
+        op = e[1]
+        try:
+            r = {"Shl": lambda: a << b if 0 <= b < 64 else None,
+                 "Shr": lambda: a >> b if 0 <= b < 64 else None,
+                 "BitOr": lambda: a | b, "BitAnd": lambda: a & b, "BitXor": lambda: a ^ b,
+                 "Add": lambda: a + b, "Sub": lambda: a - b, "Mul": lambda: a * b,
+                 "Div": lambda: (abs(a) // abs(b)) * (1 if (a < 0) == (b < 0) else -1) if b else None,
+                 }.get(op, lambda: None)()
+        except Exception:
+            return None
+        if r is None or abs(r) >= 2 ** 63:
+            return None
+        return r
+    if k in ("call", "callat"):
+        name = e[1] if k == "call" else e[2]
+        args = e[2] if k == "call" else e[3]
+        xs = [_conc(x, v, wide_ty) for x in args]
+        if any(x is None for x in xs):
+            return None
+        if name == "saturating_add" and len(xs) == 2 and wide_ty in TYMAX:
+            return max(TYMIN[wide_ty], min(TYMAX[wide_ty], xs[0] + xs[1]))
+        if name == "saturating_sub" and len(xs) == 2 and wide_ty in TYMAX:
+            return max(TYMIN[wide_ty], min(TYMAX[wide_ty], xs[0] - xs[1]))
+        if name == "max" and len(xs) == 2:
+            return max(xs)
+        if name == "min" and len(xs) == 2:
+            return min(xs)
+        if name == "clamp" and len(xs) == 3:
+            return max(xs[1], min(xs[2], xs[0]))
+        return None
+    return None
+
+
+def _exhaustive(ew, en, nar, wide):
+    """(ok, text) from evaluating narrow(widen(v)) at every v of the narrow range, or None"""
+    if wide not in TYMAX or nar not in RANGE:
+        return None
+    lo, hi = RANGE[nar]
+    first = None
+    nbad = 0
+    for v in range(lo, hi + 1):
+        w = _conc(ew, v, wide)
+        if w is None:
+            return None
+        if not (TYMIN[wide] <= w <= TYMAX[wide]):
+            return None
+        b = _conc(en, w, wide)
+        if b is None:
+            return None
+        if b != v:
+            nbad += 1
+            if first is None:
+                first = (v, w, b)
+    if nbad == 0:
+        return (True, "narrow(widen(v)) = v at each of the %d values (integer expression trees "
+                      "evaluated over the whole narrow range)" % (hi - lo + 1))
+    return (False, "%d of %d values do not survive: v = %d widens to %d (0x%x) and comes back as %d"
+            % (nbad, hi - lo + 1, first[0], first[1], first[1] & 0xffffffff, first[2]))
+
+
 def round_trip(rep, prog, rule):
     rep.rule(rule, "for each pair narrow -> wide -> narrow of component types (u8->u16, u8->i32, "
              "u8->f32, u16->i32, u16->f32) the composition of the two into_component "
@@ -335,19 +417,27 @@ def round_trip(rep, prog, rule):
         if len(dw) != 1 or len(dn) != 1:
             rep.unk(rule, key, fw.loc, "conversion with several return expressions")
             continue
-        w = _rt_eval(sw.rvalue(dw[0][2], dw[0][0], (dw[0][0], dw[0][1])), _Lin(1, 0, lo, hi), why)
+        ew = sw.rvalue(dw[0][2], dw[0][0], (dw[0][0], dw[0][1]))
+        en = sn.rvalue(dn[0][2], dn[0][0], (dn[0][0], dn[0][1]))
+        w = _rt_eval(ew, _Lin(1, 0, lo, hi), why)
         if isinstance(w, _Floor):
             w = _resolve_floor(w, why)
+        res = None
         if w is None or isinstance(w, tuple):
-            rep.unk(rule, key, fw.loc, "widening not modelled (%s)" % "; ".join(why[:2]))
-            continue
-        back = _rt_eval(sn.rvalue(dn[0][2], dn[0][0], (dn[0][0], dn[0][1])), w, why)
-        # saturating add: decide that it cannot saturate, then continue symbolically
-        # (handled inside by the ("satadd", ..) marker for a trailing shift)
-        res = _finish(back, nar, why)
-        if res is None:
-            rep.unk(rule, key, fn_.loc, "narrowing not modelled (%s)" % "; ".join(why[:2]))
-            continue
+            res = _exhaustive(ew, en, nar, wide)
+            if res is None:
+                rep.unk(rule, key, fw.loc, "widening not modelled (%s)" % "; ".join(why[:2]))
+                continue
+        else:
+            back = _rt_eval(en, w, why)
+            # saturating add: decide that it cannot saturate, then continue symbolically
+            # (handled inside by the ("satadd", ..) marker for a trailing shift)
+            res = _finish(back, nar, why)
+            if res is None:
+                res = _exhaustive(ew, en, nar, wide)
+            if res is None:
+                rep.unk(rule, key, fn_.loc, "narrowing not modelled (%s)" % "; ".join(why[:2]))
+                continue
         verdict, text = res
         if verdict:
             rep.ok(rule, key, fn_.loc, text)
